@@ -30,6 +30,22 @@ RULE = ("Go main packages of several files: scope-tree units (random trees of bl
         "real package names; lower-casing of 70 names; non-trivial = distinct case line")
 
 
+# Known findings whose probe input is run on EVERY run.  If one of them stops failing the same way
+# the tree changed there: information only (a NOTE, never a violation) - the generated cases, not
+# the fixed probe, are what guards the behaviour.
+PROBES = ['main-unwrap-leading-var', 'builtin-name-capture-crossfile', 'fmt-value-in-composite']
+
+
+def post(ctx, outdir, dis):
+    hit = {k for k, _ in ctx.known_hit}
+    for k in PROBES:
+        if k in ctx.known and k not in hit:
+            msg = ("NOTE: property=C25 known finding key=%s: its fixed probe input no longer fails the same way "
+                   "on this tree (information only)") % k
+            print(msg)
+            ctx.notes.append(msg)
+
+
 def run(ctx):
     ctx.assumptions += [
         "programs are abstracted to Stmt trees for the proved kernel; expressions are skip/seq/use/funcLit trees",
@@ -37,4 +53,4 @@ def run(ctx):
         "generated programs avoid three compiler defects independent of the conversion (lazy function loading in the caller's scope, import renaming, paren-less composite literal in if headers)",
     ]
     common.standard(ctx, "GopModel.Props.C25", "c25", 60, 360, RULE,
-                    extract=("gopstyletab",), driver="drv_compc")
+                    extract=("gopstyletab",), driver="drv_compc", post=post)
